@@ -58,6 +58,7 @@ structure Cfg where
   serr : OutKind          -- stderr (single Exec only)
   errTo : Bool            -- `Pipeline::stderr_to(file)`
   failAt : Option Nat     -- the command that cannot be started, if any
+  ioFails : Bool := false -- the exchange of `capture` fails after the start (e.g. EPIPE: input for a command that exits unread)
 
 /-- what the terminator does to the configuration before starting -/
 def effective (c : Cfg) (t : Term) : Cfg :=
@@ -176,6 +177,11 @@ def runEff (c : Cfg) (t : Term) : List Act :=
      | .streamStderr => [.ret true, .user] ++ dropVec c [] noneWaited c.n
      | .streamStdin => [.ret true, .user, .close ⟨1, .w⟩] ++ dropVec c [⟨1, .w⟩] noneWaited c.n
      | .capture =>
+       if c.ioFails then
+         -- `comm.read()?` returns early: the Popen(s) are dropped -- and waited for -- before the Communicator, which
+         -- still holds what it had not closed: its read ends and, the input not being finished, the stdin write end
+         [.io] ++ dropVec c (commEnds c t) noneWaited c.n ++ (commEnds c t).map Act.close ++ [.ret false]
+       else
        -- `Communicator::read` closes stdin once the input is written; the read ends stay open (at
        -- end-of-file) until the Communicator is dropped, which is after the Vec<Popen>
        [.io] ++ (commWriteEnds c).map Act.close ++ [.waitRet last] ++
